@@ -22,9 +22,15 @@ func TestVerifC35ConcurrentFirstUse(t *testing.T) {
 	st := vfNewStats(t, "C35")
 	trials := 150
 	if vfThorough() {
-		trials = 600
+		trials = 300
 	}
+	n := 0
 	rapid.Check(t, func(rt *rapid.T) {
+		// bounded by case count (each case is `trials` fresh Configs x G goroutines, ~0.3 ms per Config): all cases of the
+		// quick tier, the first 1500 per shard of the thorough tier
+		if n++; n > 1500 {
+			return
+		}
 		d := vf35GenState(rt)
 		g := rapid.IntRange(2, 8).Draw(rt, "goroutines")
 		legacy := rapid.IntRange(0, 3).Draw(rt, "legacy_key") == 0 // Config.SessionTicketKey set by the application
